@@ -1,0 +1,19 @@
+//! Verification hooks (only compiled with `--cfg rosu_pp_verif`).
+//!
+//! Re-exports crate-private items and read-only "abstract views" so that an
+//! external harness can drive them directly. Nothing in here is used by the
+//! library itself.
+
+pub use crate::{
+    any::difficulty::skills::{count_top_weighted_strains, difficulty_value},
+    catch::verif as catch,
+    mania::verif as mania,
+    osu::verif as osu,
+    taiko::verif as taiko,
+    util::{
+        limited_queue::LimitedQueue,
+        random::{csharp::Random as CsharpRandom, osu::Random as OsuRandom},
+        sort::{csharp as csharp_sort, osu_legacy as osu_legacy_sort, TandemSorter},
+        strains_vec::StrainsVec,
+    },
+};
